@@ -4,7 +4,9 @@ the renderer (`to_string`, `to_pretty_string`, `container_to_string`, `scalar_to
 `PrettyOpts::generate_indent`; I1–I6) and of the serde bridge (`to_serde_json`, `to_serde_json_object`,
 `containter_to_serde_json`, `containter_to_serde_json_object`, `scalar_to_serde_json`; I7–I9) and of the two editors
 phase 4 left over (`array_overlap_jsonb`, I10; `object_insert_jsonb`, I11–I12) and of the `strip_nulls` family
-(`strip_nulls_array`, `strip_nulls_object`, `strip_nulls_jsonb`; I13–I15), `build_array` (I16) and `build_object` (I17).
+(`strip_nulls_array`, `strip_nulls_object`, `strip_nulls_jsonb`; I13–I15), `build_array` (I16), `build_object` (I17)
+and of the `delete_by_keypath` family (`delete_jsonb_array_by_keypath`, `delete_jsonb_object_by_keypath`,
+`delete_by_keypath_jsonb`; I18–I24).
 See tools/RS2LEAN.md, section "Phase 6c".
 -/
 import JsonbModel.Proofs.TranslatedAgreeI1
@@ -24,3 +26,10 @@ import JsonbModel.Proofs.TranslatedAgreeI14
 import JsonbModel.Proofs.TranslatedAgreeI15
 import JsonbModel.Proofs.TranslatedAgreeI16
 import JsonbModel.Proofs.TranslatedAgreeI17
+import JsonbModel.Proofs.TranslatedAgreeI18
+import JsonbModel.Proofs.TranslatedAgreeI19
+import JsonbModel.Proofs.TranslatedAgreeI20
+import JsonbModel.Proofs.TranslatedAgreeI21
+import JsonbModel.Proofs.TranslatedAgreeI22
+import JsonbModel.Proofs.TranslatedAgreeI23
+import JsonbModel.Proofs.TranslatedAgreeI24
